@@ -101,14 +101,16 @@ func DeBlobProgramCode(data []byte) (_ Program, _ ExitReason) {
 	}
 	data = data[dataUsed:]
 
-	if jumpTableLength*jumpTableSize >= 1<<32 {
-		pvmLogger.Errorf("jump table size %d bits exceed litmit of 32 bits", jumpTableLength*jumpTableSize)
+	// |j| * z is computed without wrapping: |j| may be any 64-bit natural
+	jumpTableBytes, overflow := checkOverflow(jumpTableLength, jumpTableSize)
+	if overflow || jumpTableBytes >= 1<<32 {
+		pvmLogger.Errorf("jump table of %d entries of %d bytes exceeds the limit of 32 bits", jumpTableSize, jumpTableLength)
 		return Program{}, ExitPanic
 		// panic("the jump table's size is supposed to be at most 32 bits")
 	}
 
 	// E_z(j) = jumpTableSize * jumpTableLength = E_(|j|) * E_1(z)
-	jumpTableData, data, err := ReadBytes(data, jumpTableLength*jumpTableSize)
+	jumpTableData, data, err := ReadBytes(data, jumpTableBytes)
 	if err != nil {
 		pvmLogger.Errorf("jumpTableData ReadBytes error: %v", err)
 		return Program{}, ExitPanic
